@@ -37,6 +37,9 @@ use event_store::EventStore;
 
 mod lmdb;
 pub use lmdb::IndexStats;
+
+#[cfg(feature = "verif")]
+pub mod verif;
 use lmdb::Lmdb;
 
 pub use heed;
@@ -84,6 +87,8 @@ impl Store {
 
         // Create the directory if it doesn't exist, ignoring errors
         let _ = fs::create_dir(&dir);
+        #[cfg(feature = "verif")]
+        verif::point("new:dir");
 
         let mut events_path = dir.clone();
         events_path.push("event.map");
@@ -93,9 +98,15 @@ impl Store {
 
         // Create the lmdb subdir if it doesn't exist, ignoring errors
         let _ = fs::create_dir(&indexes_path);
+        #[cfg(feature = "verif")]
+        verif::point("new:lmdbdir");
 
         let events = EventStore::new(&events_path)?;
+        #[cfg(feature = "verif")]
+        verif::point("new:events");
         let indexes = Lmdb::new(&indexes_path, &extra_table_names)?;
+        #[cfg(feature = "verif")]
+        verif::point("new:indexes");
 
         Ok(Store {
             events,
@@ -302,7 +313,11 @@ impl Store {
     pub fn store_event(&self, event: &Event) -> Result<u64, Error> {
         // TBD: should we validate the event?
 
+        #[cfg(feature = "verif")]
+        verif::point("store:before-txn");
         let mut txn = self.indexes.write_txn()?;
+        #[cfg(feature = "verif")]
+        verif::point("store:txn");
 
         // Return Duplicate if it already exists
         if self.indexes.get_offset_by_id(&txn, event.id())?.is_some() {
@@ -349,6 +364,9 @@ impl Store {
             }
         }
 
+        #[cfg(feature = "verif")]
+        verif::point("store:checked");
+
         // Pre-remove replaceable events being replaced
         {
             if event.kind().is_replaceable() {
@@ -394,20 +412,31 @@ impl Store {
             }
         }
 
+        #[cfg(feature = "verif")]
+        verif::point("store:preremoved");
+
         // Store the event
         let offset = self.events.store_event(event)? as u64;
+        #[cfg(feature = "verif")]
+        verif::point("store:appended");
 
         // Index the event
         if !event.kind().is_ephemeral() {
             self.indexes.index(&mut txn, event, offset)?;
         }
+        #[cfg(feature = "verif")]
+        verif::point("store:indexed");
 
         // Handle deletion events
         if event.kind() == 5.into() {
             self.handle_deletion_event(&mut txn, event)?;
         }
+        #[cfg(feature = "verif")]
+        verif::point("store:before-commit");
 
         txn.commit()?;
+        #[cfg(feature = "verif")]
+        verif::point("store:committed");
 
         Ok(offset)
     }
@@ -526,6 +555,8 @@ impl Store {
         };
 
         let txn = self.indexes.read_txn()?;
+        #[cfg(feature = "verif")]
+        verif::point("query:snapshot");
 
         // We insert into a BTreeSet to keep them time-ordered
         let mut output: BTreeSet<&Event> = BTreeSet::new();
@@ -936,9 +967,17 @@ impl Store {
 
     /// This removes an event without marking it as having been deleted by another event
     pub fn remove_event(&self, id: Id) -> Result<(), Error> {
+        #[cfg(feature = "verif")]
+        verif::point("remove:before-txn");
         let mut txn = self.indexes.write_txn()?;
+        #[cfg(feature = "verif")]
+        verif::point("remove:txn");
         self.remove_by_id(&mut txn, id)?;
+        #[cfg(feature = "verif")]
+        verif::point("remove:before-commit");
         txn.commit()?;
+        #[cfg(feature = "verif")]
+        verif::point("remove:committed");
         Ok(())
     }
 
@@ -1032,6 +1071,8 @@ impl Store {
     ///
     /// Caller is responsible for verifying the event and its relay tag
     pub fn vanish(&self, event: &Event) -> Result<(), Error> {
+        #[cfg(feature = "verif")]
+        verif::point("vanish:start");
         // delete all events with this pubkey
         let tags = OwnedTags::empty();
         let filter = OwnedFilter::new(&[], &[event.pubkey()], &[], &tags, None, None, None)?;
@@ -1041,6 +1082,9 @@ impl Store {
             self.remove_event(event.id())?;
         }
 
+        #[cfg(feature = "verif")]
+        verif::point("vanish:authored-done");
+
         // delete giftwraps that p-tag this pubkey
         let tags = OwnedTags::new(&[vec!["p", &event.pubkey().as_hex_string()]])?;
         let filter = OwnedFilter::new(&[], &[], &[Kind::from_u16(1059)], &tags, None, None, None)?;
@@ -1049,6 +1093,8 @@ impl Store {
         for event in giftwrap_events.iter() {
             self.remove_event(event.id())?;
         }
+        #[cfg(feature = "verif")]
+        verif::point("vanish:done");
 
         Ok(())
     }
